@@ -435,6 +435,10 @@ class App:
 
     def configure(self, conf):
         from radicale import app
+        if conf.get("storage", {}).get("filesystem_cache_folder") == "@tmp":
+            # a separate cache folder next to the storage folder, removed with it
+            conf = dict(conf, storage=dict(conf["storage"], filesystem_cache_folder=self.folder + "-cache"))
+            os.makedirs(self.folder + "-cache", exist_ok=True)
         self.configuration.update(conf, "verif", privileged=True)
         for k, v in conf.items():
             self.conf.setdefault(k, {}).update(v)
@@ -451,6 +455,7 @@ class App:
     def close(self):
         if self.own_folder and not self.keep:
             shutil.rmtree(self.folder, ignore_errors=True)
+            shutil.rmtree(self.folder + "-cache", ignore_errors=True)
 
     def __enter__(self):
         return self
